@@ -91,4 +91,56 @@ def rcritUsed (f gamma dGv Rmin : α) : α :=
 
 end barrier
 
+/-! ### `BinaryThermodynamics.getInterfacialComposition` (BinTherm.py 108-114): broadcasting of `(T, gExtra)` and the
+dispatch between the vectorised path (ONE `_interfacialComposition(T[0], gExtra)` call for the whole `gExtra` array)
+and the per-condition path (`_interfacialComposition(T[i], gExtra[i])` for every `i`).
+
+The arguments are the `np.atleast_1d` lists (a scalar is a list of length one).  The backend
+`_interfacialComposition` is an INPUT of the model: `backend T gs` is the list of answers for the GE values `gs` at
+temperature `T` (one answer per GE value). -/
+
+section dispatch
+variable {α : Type} [LT α] [DecidableLT α]
+
+/-- `a == b` of two temperatures, through the order (no NaN in the statement) -/
+def eqv (a b : α) : Bool := !(decide (a < b) || decide (b < a))
+
+/-- `_process_TG_arrays` (utils.py 41-57) after `atleast_1d`: equal lengths pass; else a singleton `T` is repeated to
+`len(gExtra)`, else a singleton `gExtra` to `len(T)`; anything else is the `ValueError` (`none`). -/
+def processTG (Ts gs : List α) : Option (List α × List α) :=
+  if Ts.length = gs.length then some (Ts, gs) else
+  match Ts, gs with
+  | [t], _ => some (List.replicate gs.length t, gs)
+  | _, [g] => some (Ts, List.replicate Ts.length g)
+  | _, _ => none
+
+/-- `len(np.unique(T)) == 1`: every entry equals the first one (false for the empty array: `np.unique` has length 0) -/
+def allEqual : List α → Bool
+  | [] => false
+  | t0 :: rest => rest.all (fun t => eqv t t0)
+
+/-- the shortcut `T[0] == T[-1]` (NOT what the code does: a thermal cycle passes it) -/
+def firstLastEqual : List α → Bool
+  | [] => false
+  | t0 :: rest => match rest.getLast? with
+    | none => true
+    | some tl => eqv t0 tl
+
+/-- the calls `self._interfacialComposition(T, gExtra, precPhase)` made for broadcast `Ts`, `gs`, in order, as
+`(T, GE values)`; `vectorise` is the test deciding for the single vectorised call -/
+def icCalls (vectorise : List α → Bool) (Ts gs : List α) : List (α × List α) :=
+  match Ts with
+  | [] => []
+  | t0 :: _ => if vectorise Ts then [(t0, gs)] else (Ts.zip gs).map (fun p => (p.1, [p.2]))
+
+/-- the array handed back (`zip(*…)` + `np.squeeze`): the answers of the calls, concatenated in order -/
+def icResult {ρ : Type} (backend : α → List α → List ρ) (vectorise : List α → Bool) (Ts gs : List α) : List ρ :=
+  (icCalls vectorise Ts gs).flatMap (fun c => backend c.1 c.2)
+
+/-- `getInterfacialComposition(T, gExtra)` as the code dispatches it; `none` = `ValueError` of the length check -/
+def getIC {ρ : Type} (backend : α → List α → List ρ) (Ts gs : List α) : Option (List ρ) :=
+  (processTG Ts gs).map (fun p => icResult backend allEqual p.1 p.2)
+
+end dispatch
+
 end KawinV.IC
